@@ -115,12 +115,15 @@ func (t *Input) CoerceIn(v interface{}) (interface{}, error) {
 			ov := tv[k]
 			if ov == nil {
 				if f.Default != nil { // if not set then add the default value if not nil
+					// A copy, the default is the schema's and shared by all
+					// requests while a value of a request can be coerced in
+					// place later on (a list or an object default).
 					if rt != nil {
-						if err := t.reflectSetKey(rv, k, f.Default); err != nil {
+						if err := t.reflectSetKey(rv, k, copyValue(f.Default)); err != nil {
 							return nil, inErr(err, k)
 						}
 					} else {
-						tv[k] = f.Default
+						tv[k] = copyValue(f.Default)
 					}
 				} else if _, ok := f.Type.(*NonNull); ok {
 					return nil, fmt.Errorf("%s is required but missing", k)
